@@ -322,7 +322,7 @@ def main():
     else:
         rng = random.Random(check.seed)
         workloads = []
-        n_sites = 10 if check.thorough else 1
+        n_sites = 6 if check.thorough else 1
         for s in range(n_sites):
             site_seed = rng.randrange(1 << 30) if (check.thorough or check.seed) else 12345
             for conc in ((1, 3) if check.thorough else (2,)):
@@ -416,8 +416,15 @@ def main():
                         points.append({'kind': 'fi_write', 'at': k, 'mode': 'kill_after'})
             for p in points:
                 cases.append(dict(w, kill=p, reference_requests=ref))
-        check.extra['kill_points'] = len(cases)
+        check.extra['kill_points_enumerated'] = len(cases)
         rng.shuffle(cases)
+        budget = int(16000 * check.scale)
+        if check.thorough and len(cases) > budget:
+            # a run has to end: beyond the budget (about an hour on 16 cores) a uniform sample of the enumerated kill points
+            # is executed; the evidence states both numbers
+            cases = cases[:budget]
+            check.extra['kill_points_sampled'] = True
+        check.extra['kill_points'] = len(cases)
         nj = check.jobs * 4
         jobs = [{'cases': cases[i::nj]} for i in range(nj) if cases[i::nj]]
         res = par.run_jobs(target, jobs, check.jobs, timeout=7200 if check.thorough else 1500)
@@ -428,7 +435,7 @@ def main():
             check.note_inconclusive('worker: ' + r['_error'] + ' ' + r.get('_stderr', '')[-400:])
         else:
             check.merge(r)
-    check.exhaustive = not check.inconclusive
+    check.exhaustive = not check.inconclusive and not check.extra.get('kill_points_sampled')
     check.finish(required_counters=() if check.args.replay else ('killed_runs', 'no_refetch_confirmed', 'union_covers_reference'))
 
 
